@@ -1040,4 +1040,37 @@ pub(crate) const MAX_PUBKEY_SIZE: usize = 97;""")]),
     dict(name='c02-nsecret-is-blocksize', expect=[('C02', 'R02.1')],
          note='KEM shared secrets are expanded to the hash block size (64/128 bytes) instead of Nh; both sides agree',
          edits=[(DHKEM, "type NSecret = <<$kdf as KdfTrait>::HashImpl as OutputSizeUser>::OutputSize;", "type NSecret = <<$kdf as KdfTrait>::HashImpl as digest::core_api::BlockSizeUser>::BlockSize;")]),
+    # build-profile dimension (rules also run on the MIR without cfg(debug_assertions))
+    dict(name='profile-exporter-expand-release-truncated', expect=[('C02', 'R02.5'), ('C11', 'R11.3'), ('C17', 'R17.6')],
+         note='release builds only: the exporter secret is filled to 16 bytes; dev-profile MIR is unchanged',
+         edits=[(SETUP, """    secret_ctx
+        .labeled_expand(
+            &suite_id,
+            b"exp",
+            sched_context,
+            exporter_secret.0.as_mut_slice(),
+        )
+        .expect("exporter secret len is way too big");""", """    #[cfg(debug_assertions)]
+    secret_ctx
+        .labeled_expand(
+            &suite_id,
+            b"exp",
+            sched_context,
+            exporter_secret.0.as_mut_slice(),
+        )
+        .expect("exporter secret len is way too big");
+    #[cfg(not(debug_assertions))]
+    secret_ctx
+        .labeled_expand(
+            &suite_id,
+            b"exp",
+            sched_context,
+            &mut exporter_secret.0.as_mut_slice()[..16],
+        )
+        .expect("exporter secret len is way too big");""")]),
+    dict(name='profile-open-overflow-check-debug-only', expect=[('C05', 'R05.4')],
+         note='release builds only: the exhausted receiver is only refused under debug assertions',
+         edits=[(AEAD, """including ones with a malformed ciphertext
+        if self.0.overflowed {""", """including ones with a malformed ciphertext
+        if cfg!(debug_assertions) && self.0.overflowed {""")]),
 ]
